@@ -160,12 +160,19 @@ def gen_cases(run):
                 cases.append(Case("bits:base%d" % base, prog_init("WORD", lit), exp, [op, hexs(prefix + digits)]))
     # ---- reals (tested against correctly rounded binary64) ---------------------------------
     reals = ["0.0", "1.5", "3.14159", "1.0E10", "1.0e-10", "2.5E+3", "1_000.000_1", "123456789.123456789", "0.1", "1.7976931348623157E308",
-             "4.9E-324", "2.2250738585072014E-308", "9007199254740993.0", "0.30000000000000004", "1.0E400", "5.0E-400", "100.0E2"]
+             "4.9E-324", "2.2250738585072014E-308", "9007199254740993.0", "0.30000000000000004", "1.0E400", "5.0E-400", "100.0E2",
+             # around the largest finite binary64: the last literal that rounds to it, the first that does not, far beyond it
+             "1.7976931348623158E308", "1.797693134862315807E308", "1.797693134862315808E308", "1.8E308", "2.0E308", "1.0E309",
+             "17976931348623157" + "0" * 292 + ".0", "18" + "0" * 307 + ".0", "1" + "0" * 400 + ".0", "0.1E310", "1000.0E306"]
     for r in reals:
         for sign in ("", "-", "+"):
             for tpre, tname in (("", None), ("REAL#", "REAL"), ("LREAL#", "LREAL")):
                 clean = r.replace("_", "")
                 val = float(clean) * (-1.0 if sign == "-" else 1.0)
+                if val in (float("inf"), float("-inf")):
+                    # the value is beyond the largest finite binary64: not representable, so rejected
+                    cases.append(Case("real:overflow", prog_init("LREAL", tpre + sign + r), ("reject",)))
+                    continue
                 bits = struct.unpack("<Q", struct.pack("<d", val))[0]
                 cases.append(Case("real", prog_init("LREAL", tpre + sign + r), ("const", {"kind": "real", "bits": str(bits), "type": tname})))
     # ---- durations -------------------------------------------------------------------------
@@ -238,6 +245,14 @@ def gen_cases(run):
         cases.append(Case("string", prog_assign("STRING", "'" + body + "'"), ("const", {"kind": "string", "chars": [ord(c) for c in body]})))
         if "\"" not in body:
             cases.append(Case("string", prog_assign("WSTRING", "\"" + body + "\""), ("const", {"kind": "string", "chars": [ord(c) for c in body]})))
+    # `$` escapes (IEC 61131-3 table 6): `$$`, the quote, `$N`/`$L`/`$R`/`$T`/`$P` in either case, two (STRING) or four (WSTRING) hex digits
+    for body, chars in (("a$Nb", [97, 10, 98]), ("$$", [36]), ("a$'b", [97, 39, 98]), ("$41", [65]), ("$t$r$l$p", [9, 13, 10, 12]),
+                        ("x$$N", [120, 36, 78])):
+        cases.append(Case("string:escape", prog_assign("STRING", "'" + body + "'"), ("const", {"kind": "string", "chars": chars}),
+                          note=("dollar-escape", [ord(c) for c in body])))
+    for body, chars in (("a$Nb", [97, 10, 98]), ("$$", [36]), ("a$\"b", [97, 34, 98]), ("$0041", [65])):
+        cases.append(Case("string:escape", prog_assign("WSTRING", "\"" + body + "\""), ("const", {"kind": "string", "chars": chars}),
+                          note=("dollar-escape", [ord(c) for c in body])))
     # ---- booleans ---------------------------------------------------------------------------
     for lit, v in (("TRUE", "True"), ("FALSE", "False"), ("true", "True"), ("BOOL#TRUE", "True"), ("BOOL#FALSE", "False")):
         cases.append(Case("bool", prog_init("BOOL", lit), ("const", {"kind": "bool", "value": v})))
@@ -332,6 +347,7 @@ def model_matches(case, fields, obs):
 
 KNOWN_BOOL_DIGIT = "bool-hash-digit-rejected"
 KNOWN_MULTI_UNIT = "duration-multi-unit-rejected"
+KNOWN_DOLLAR = "string-dollar-escape-kept-verbatim"
 
 
 def search(run, info):
@@ -356,6 +372,12 @@ def search(run, info):
                 if c.note == "multi-unit" and obs[0] == "reject" and KNOWN_MULTI_UNIT in known_keys:
                     run.known_finding(KNOWN_MULTI_UNIT, "a duration literal with more than one unit part (T#1h30m) is rejected with a syntax error")
                     continue
+                if isinstance(c.note, tuple) and c.note[0] == "dollar-escape" and KNOWN_DOLLAR in known_keys:
+                    raw = obs[0] == "ok" and matches(("const", {"kind": "string", "chars": c.note[1]}), obs)
+                    if raw or obs[0] == "reject":
+                        run.known_finding(KNOWN_DOLLAR, "`$` escapes in character strings are not interpreted: the two characters are kept "
+                                                        "as written ('a$Nb' has four characters), an escaped quote ends the string")
+                        continue
                 what = "literal read wrongly (%s build): expected %r, observed %r" % (bname, c.expect, obs[:2] if obs[0] != "ok" else (obs[1], obs[2]))
                 run.violation("impl-violates-property", what, {"input": {"text": c.src}, "expected": c.expect, "family": c.tag})
                 continue
